@@ -76,6 +76,26 @@ def spec_wait(tier):
         trace_timeout=1500)
 
 
+ALL_STRATS = ["all_none", "all_ff", "join_none", "join_ff"]
+ANY_STRATS = ["any_none", "any_ff", "any_lf"]
+
+
+def spec_when(tier, strats, primary):
+    outs2 = ["vv", "vx", "xv", "xx", "ex"]
+    grid = [{"strat": s, "form": f, "outs": o} for s in strats for f in ("static", "dynamic") for o in outs2]
+    rand = [{"strat": s, "form": f, "outs": o} for s in strats for f in ("static", "dynamic") for o in ("xvx", "xxx", "vxv", "exv")]
+    mc = [("When_MC.cfg", 8, 900, "When: 7 strategies x 5 outcome patterns, n = 2, all interleavings with registration")]
+    if tier != "quick":
+        mc.append(("When_MC3.cfg", 12, 2400, "When: n = 3"))
+    return ConcSpec(
+        name="When", scenario="wh", grid=grid,
+        inv_props=dict(OWN_INVS, **dict(RACE_INVS, ReleasedOnce="C03")), primary=primary,
+        mc_cfgs=mc, paths_cfg=None,
+        dfs_max=6000, preempt=1 if tier == "quick" else 2,
+        rand_execs=60 if tier == "quick" else 600, rand_grid=rand,
+        scen_keys=["strat", "form", "outs"], trace_timeout=1500)
+
+
 # ------------------------------------------------------------------------------------------------ checks
 
 @check("C01")
@@ -104,9 +124,23 @@ def c11(rep, tier, seed):
                         "n = 1, 2: all schedules with at most 2 preemptions on the code; n = 3: seeded random schedules; n <= 2 exhaustively in the model"]
 
 
+@check("C09")
+def c09(rep, tier, seed):
+    """WhenAll / Join complete once, at the right moment, inputs in input order (When.tla)"""
+    run_conc(rep, spec_when(tier, ALL_STRATS, "C09"), tier, seed, {"C09"})
+    rep.assumptions += ["unique inputs; static and dynamic forms; n = 2 with all schedules up to the preemption bound, n = 3 random"]
+
+
+@check("C10")
+def c10(rep, tier, seed):
+    """WhenAny completes once with the right winner for each fail policy (When.tla)"""
+    run_conc(rep, spec_when(tier, ANY_STRATS, "C10"), tier, seed, {"C10"})
+    rep.assumptions += ["unique inputs; static and dynamic forms; n = 2 with all schedules up to the preemption bound, n = 3 random"]
+
+
 def all_conc_specs(tier):
     """every concurrent specification that carries ownership ghost state and a MemModel instance"""
-    return [spec_unique(tier), spec_shared(tier), spec_wait(tier)]
+    return [spec_unique(tier), spec_shared(tier), spec_wait(tier), spec_when(tier, ALL_STRATS + ANY_STRATS, "C09")]
 
 
 @check("C03")
